@@ -283,6 +283,13 @@ impl<K: HKey> Store<K> {
                     }
                     if name == "put" {
                         tx.finish()?;
+                    } else if op["panic"].as_bool().unwrap_or(false) {
+                        // the transaction is abandoned by a panic of its owner: unwinding drops it
+                        let r = catch_unwind(AssertUnwindSafe(move || {
+                            let _keep = tx;
+                            std::panic::resume_unwind(Box::new("abandoned by unwinding"));
+                        }));
+                        debug_assert!(r.is_err());
                     } else {
                         drop(tx);
                     }
